@@ -479,7 +479,7 @@ impl<R: Round> Context<R> {
     fn convert_base<const B: Word, const NewB: Word>(&self, repr: Repr<B>) -> Rounded<Repr<NewB>> {
         // shortcut if NewB is the same as B
         if NewB == B {
-            return Exact(Repr {
+            return self.repr_round(Repr {
                 significand: repr.significand,
                 exponent: repr.exponent,
             });
